@@ -687,6 +687,7 @@ func c19M4(r *core.R) {
 	if m == nil || t == nil {
 		return
 	}
+	c19M4Width(r, m)
 	nfam := 0
 	for _, dm := range m.methods {
 		if dm.role != "state" && dm.role != "current" {
